@@ -400,6 +400,21 @@ class Model(object):
             self.apply_cli_op(op)
         return self
 
+    def apply_step(self, step):
+        """One step of a history on a live configuration (family 'reread'):
+        {'k': 'file', 'ops': [...]} | {'k': 'cli', 'ops': [...]} | {'k': 'set', 'o': [sec, key], 'val': value}"""
+        if step['k'] == 'file':
+            for op in step['ops']:
+                self.apply_file_op(op)
+        elif step['k'] == 'cli':
+            for op in step['ops']:
+                self.apply_cli_op(op)
+        elif step['k'] == 'set':
+            self.state[(step['o'][0], step['o'][1])] = _copy(step['val'])
+        else:
+            raise ModelError(step)
+        return self
+
     # -- read-back --------------------------------------------------------------
     def read(self, sec, key, depth=0):
         if depth > 20:
